@@ -18,6 +18,7 @@ terms of the MIT license. A copy of the license can be found in the file
 
 
 static void mi_segment_try_purge(mi_segment_t* segment, bool force);
+static void mi_segment_free(mi_segment_t* segment, bool force, mi_segments_tld_t* tld);
 
 
 // -------------------------------------------------------------------
@@ -1549,13 +1550,21 @@ static mi_page_t* mi_segments_page_alloc(mi_heap_t* heap, mi_page_kind_t page_ki
   mi_page_t* page = mi_segments_page_find_and_allocate(slices_needed, heap->arena_id, tld); //(required <= MI_SMALL_SIZE_MAX ? 0 : slices_needed), tld);
   if (page==NULL) {
     // no free page, allocate a new segment and try again
-    if (mi_segment_reclaim_or_alloc(heap, slices_needed, block_size, tld) == NULL) {
+    mi_segment_t* const segment = mi_segment_reclaim_or_alloc(heap, slices_needed, block_size, tld);
+    if (segment == NULL) {
       // OOM or reclaimed a good page in the heap
       return NULL;
     }
     else {
-      // otherwise try again
-      return mi_segments_page_alloc(heap, page_kind, required, block_size, tld);
+      // otherwise try again; as there is a large enough free span now, this only fails if the OS refuses to commit it
+      // (and trying yet another fresh segment, as we did before, would go on forever while the OS keeps refusing)
+      page = mi_segments_page_find_and_allocate(slices_needed, heap->arena_id, tld);
+      if (segment->used == 0) {
+        // the fresh segment was not used after all (the page could not be committed, or it came from another segment):
+        // free it again as an empty segment is never released otherwise (not even when the thread terminates).
+        mi_segment_free(segment, false, tld);
+      }
+      if (page == NULL) return NULL;
     }
   }
   mi_assert_internal(page != NULL && page->slice_count*MI_SEGMENT_SLICE_SIZE == page_size);
